@@ -100,22 +100,8 @@ fn c11_case(s: &[u8], l: &mut Local) {
     }
 }
 
-/// The 10-kind tile menu of C11(a).
-fn tile_menu() -> Vec<Vec<u8>> {
-    vec![
-        vec![0x80, 203, 0, 0],                                                 // BYE ok
-        vec![0x80, 201, 0, 1, 1, 2, 3, 4],                                     // RR ok
-        vec![0x85, 204, 0, 2, 1, 2, 3, 4, b'n', b'a', b'm', b'e'],             // APP ok
-        vec![0x80, 207, 0, 1, 9, 9, 9, 9],                                     // unknown type ok
-        vec![0x81, 201, 0, 1, 1, 2, 3, 4],                                     // RR with count 1 and no block: typed parse fails
-        vec![0x00, 203, 0, 0],                                                 // version 0
-        vec![0x81, 202, 0, 2, 1, 2, 3, 4, 0x00, 0x07, 0x00, 0x00],             // SDES with a non-zero byte in the fill
-        vec![0xA0, 203, 0, 1, 0, 0, 0, 0],                                     // BYE with P and zero count
-        vec![0xA0, 201, 0, 2, 1, 2, 3, 4, 0, 0, 0, 4],                         // RR ok, 4 bytes of padding (legal at any position on the wire)
-        vec![0x40, 207, 0, 0],                                                 // unknown type, version 1
-    ]
-}
-const KINDS: u64 = 10;
+use super::bytes::tile_menu;
+const KINDS: u64 = 12;
 
 const TAILS: u64 = 15;
 
@@ -150,11 +136,12 @@ fn apply_tail(v: &mut Vec<u8>, last_start: Option<usize>, tail: u64) {
 }
 
 pub fn c11(ctx: &mut Ctx) {
-    ctx.rule = "(a) all tile sequences of length 0..=d from a 10-kind menu (5 well-formed kinds incl. a padded packet, 5 kinds whose parse fails) x 15 tail variants (truncations, junk, last length field +-1, bare over-long header ...), plus sequences with a 262144-byte tile; (b) all byte strings of length 0..=12 (thorough: 16) whose length-field bytes range over {00,FF}x{00,01,02,03,FF} and whose other bytes over {00,80,81,C9,CB} (first byte of each header slot: also A0); on each: Compound::parse is Ok iff the reference tiling is exact, and tiles+3 calls of next() are compared in lock-step with the model (tile index, done) whose items are Packet::parse of each tile; non-trivial = non-empty input whose first length field is in range, distinct by fingerprint".into();
+    ctx.rule = "(a) all tile sequences of length 0..=d from a 12-kind menu (5 well-formed kinds incl. a padded packet, 7 kinds whose parse fails) x 15 tail variants (truncations, junk, last length field +-1, bare over-long header ...), plus sequences with a 262144-byte tile; (b) all byte strings of length 0..=12 (thorough: 16) whose length-field bytes range over {00,FF}x{00,01,02,03,FF} and whose other bytes over {00,80,81,C9,CB} (first byte of each header slot: also A0); on each: Compound::parse is Ok iff the reference tiling is exact, and tiles+3 calls of next() are compared in lock-step with the model (tile index, done) whose items are Packet::parse of each tile; non-trivial = non-empty input whose first length field is in range, distinct by fingerprint".into();
     let depth = ctx.tier.pick(4u32, 5u32);
-    ctx.bound("(a) tile sequences", format!("length 0..={} over 10 kinds x 15 tails", depth));
+    ctx.bound("(a) tile sequences", format!("length 0..={} over 12 kinds x 15 tails", depth));
     ctx.bound("(b) strings", ctx.tier.pick("every length 0..=12", "every length 0..=12 fully, 13..=16 with the 4th header slot restricted"));
     let menu = tile_menu();
+    assert_eq!(menu.len() as u64, KINDS);
     let nseq = seq_count(KINDS, depth);
     ctx.run_space("tile-sequences-x-tails", nseq * TAILS, |idx, l| {
         let seq = seq_decode(KINDS, idx / TAILS);
